@@ -232,6 +232,10 @@ func main() {
 		mk("rlimit-nice", "apparmor", "DENIED", "operation", "setrlimit", "class", "rlimits", "profile", "prog", "comm", "prog", "rlimit", "nice", "=value", "30"),
 		mk("rlimit-nice", "apparmor", "DENIED", "operation", "setrlimit", "class", "rlimits", "profile", "prog", "comm", "prog", "rlimit", "nice", "=value", "10"),
 	}
+	// (third hunt) the name of a disconnected path is logged without its leading slash; with the attach_disconnected flag
+	// (which the record makes aa-log set) the kernel matches it against the policy below the root: /apparmor/.null
+	n++
+	w.Encode(process(fmt.Sprintf("file-disconnected-%d", n), fileRec("DENIED", "open", "apparmor/.null", "rw", "1000", "1000", "info", "Failed name lookup - disconnected path", "=error", "-13")))
 	// a link whose target has a blank, a profile whose name has a blank (both hex-encoded by the kernel)
 	n++
 	w.Encode(process(fmt.Sprintf("link-blank-target-%d", n), fileRec("DENIED", "link", "/srv/data/l1", "l", "1000", "1000", "target", "/srv/data/link target")))
